@@ -32,9 +32,56 @@ def validate_program(run, sc, tag, cse=True, ekf=True, prefix="C02"):
     AS = sorted(sc.state, key=lambda s: s.name)
     AU = sorted(sc.control, key=lambda s: s.name)
 
-    def prove(name, got, want, note=""):
-        ob = run.prove(f"{prefix}.cxx.{tag}.{name}", list(T.side_conditions), got == want, function=FN, timeout_ms=6000, ring_first=False)
-        if ob.result.status != "unsat":
+    numeric_cache = {}
+
+    def numeric_values(qual, objects):
+        """The same body evaluated NUMERICALLY (floats, math.*) at two points: native confirmation of a symbolic disagreement."""
+        if qual in numeric_cache:
+            return numeric_cache[qual]
+        out = []
+        for k in (3, 4):
+            pt = sc.point(k)
+            vals = {s.name: float(v) for s, v in pt.items()}
+            ev = cxxtext.Evaluator(L, objects, lambda nm: vals[nm])
+            ev.numeric = True
+            try:
+                cells, ret = ev.run(fns[qual][1])
+                out.append((pt, dict(ev.env), cells))
+            except Exception:
+                out.append(None)
+        numeric_cache[qual] = out
+        return out
+
+    def prove(name, got, want, note="", numeric=None):
+        """numeric: (qualified function, objects, key into env / cells, sympy expression) for the native confirmation."""
+        ob = run.prove(f"{prefix}.cxx.{tag}.{name}", list(T.side_conditions), got == want, function=FN, timeout_ms=4000, ring_first=True)
+        if ob.result.status == "unsat":
+            return
+        confirmed = None
+        if numeric is not None:
+            qual, objects, key, expr = numeric
+            for item in numeric_values(qual, objects):
+                if item is None:
+                    continue
+                pt, env, cells = item
+                gotv = env.get(key) if isinstance(key, str) else cells.get(key)
+                try:
+                    wantv = float(sympy.sympify(expr).subs({s: sympy.Float(float(v)) for s, v in pt.items()}))
+                except Exception:
+                    continue
+                if gotv is None:
+                    continue
+                if abs(gotv - wantv) > 1e-9 * max(1.0, abs(wantv)):
+                    confirmed = f"at {({s.name: float(v) for s, v in pt.items()})} the generated statement evaluates to {gotv!r}, the expression to {wantv!r}"
+                    break
+                confirmed = confirmed or False
+        if confirmed:
+            problems.append((ob, f"{name}: generated C++ value differs from the symbolic expression {note}: {confirmed}"))
+        elif confirmed is False or ob.result.status != "sat" or T.used_uf:
+            # not decided symbolically and numerically equal at the sample points: undecided, never a violation
+            ob.result.status = "unknown"
+            run.undecided.append(ob.name + " (not decided symbolically; numerically equal at the sample points)")
+        else:
             problems.append((ob, f"{name}: generated C++ value differs from the symbolic expression {note}"))
 
     def flag(name, ok, why):
@@ -87,7 +134,7 @@ def validate_program(run, sc, tag, cse=True, ekf=True, prefix="C02"):
             if f not in des or des[f] not in ev.env:
                 flag(f"{mq}.returns.{s.name}", False, f"no value returned for state {s.name}")
                 continue
-            prove(f"{mq}.value.{s.name}", ev.env[des[f]], T.tr(sc.state_model[s]), f"state_model[{s.name}]")
+            prove(f"{mq}.value.{s.name}", ev.env[des[f]], T.tr(sc.state_model[s]), f"state_model[{s.name}]", numeric=(mq, objs_ekf if ekf else objs_model, des[f], sc.state_model[s]))
     if not ekf:
         return problems, header, source
     n, k = len(AS), len(AU)
@@ -100,7 +147,7 @@ def validate_program(run, sc, tag, cse=True, ekf=True, prefix="C02"):
         for (tgt, i, j), term in cells.items():
             if i in state_by_idx and j in col_by_idx:
                 r, c = state_by_idx[i], col_by_idx[j]
-                prove(f"{qual}.cell_{i}_{j}", term, T.tr(sympy.diff(sc.state_model[r], c)), f"d {r.name}' / d {c.name}")
+                prove(f"{qual}.cell_{i}_{j}", term, T.tr(sympy.diff(sc.state_model[r], c)), f"d {r.name}' / d {c.name}", numeric=(qual, objs_ekf, (tgt, i, j), sympy.diff(sc.state_model[r], c)))
             else:
                 flag(f"{qual}.cell_{i}_{j}.in_range", False, "cell outside the matrix")
     cells, ret, ev = run_body("ExtendedKalmanFilterProcessModel::covariance", objs_ekf)
@@ -133,7 +180,7 @@ def validate_program(run, sc, tag, cse=True, ekf=True, prefix="C02"):
                 for r in rn:
                     f = L.symbol_at(typ, r)
                     if byfield.get(f) in ev.env:
-                        prove(f"{typ}SensorModel::model.value.{r}", ev.env[byfield[f]], T.tr(sm[r]), f"sensor_model[{sname}][{r}]")
+                        prove(f"{typ}SensorModel::model.value.{r}", ev.env[byfield[f]], T.tr(sm[r]), f"sensor_model[{sname}][{r}]", numeric=(f"{typ}SensorModel::model", objs, byfield[f], sm[r]))
                     else:
                         flag(f"{typ}SensorModel::model.value.{r}", False, "no value returned")
         cells, ret, ev = run_body(f"{typ}SensorModel::jacobian", objs)
@@ -141,7 +188,7 @@ def validate_program(run, sc, tag, cse=True, ekf=True, prefix="C02"):
             flag(f"{typ}SensorModel::jacobian.all_cells_assigned", {(i, j) for (_, i, j) in cells} == {(i, j) for i in range(len(rn)) for j in range(n)}, "not every cell assigned")
             for (tgt, i, j), term in cells.items():
                 if i in rd_by_idx and j in state_by_idx:
-                    prove(f"{typ}SensorModel::jacobian.cell_{i}_{j}", term, T.tr(sympy.diff(sm[rd_by_idx[i]], state_by_idx[j])), f"d {rd_by_idx[i]} / d {state_by_idx[j].name}")
+                    prove(f"{typ}SensorModel::jacobian.cell_{i}_{j}", term, T.tr(sympy.diff(sm[rd_by_idx[i]], state_by_idx[j])), f"d {rd_by_idx[i]} / d {state_by_idx[j].name}", numeric=(f"{typ}SensorModel::jacobian", objs, (tgt, i, j), sympy.diff(sm[rd_by_idx[i]], state_by_idx[j])))
         cells, ret, ev = run_body(f"{typ}SensorModel::covariance", objs)
         if cells is not None:
             flag(f"{typ}SensorModel::covariance.all_cells_assigned", {(i, j) for (_, i, j) in cells} == {(i, j) for i in range(len(rn)) for j in range(len(rn))}, "not every cell assigned")
@@ -157,7 +204,7 @@ def corpus(seed, n, ekf=True):
     out = []
     for t in range(n):
         shp = shapes[t % len(shapes)]
-        out.append((scenarios.Scenario(shp[0], shp[1], shp[2], shp[3], seed=seed + 31 * t, transcendental=(t % 4 == 3), share_reading=True), shp))
+        out.append((scenarios.Scenario(shp[0], shp[1], shp[2], shp[3], seed=seed + 31 * t, transcendental=(t % 4 == 3), share_reading=True, rational=(t % 3 == 1)), shp))
     return out
 
 
